@@ -134,7 +134,9 @@ theorem interp_good (reg : Registry) : ∀ f : Nat,
         rw [writeNode]
         split
         · exact good_of_same_writer rfl
-        · exact inclFinish_good _ _
+        · split
+          · exact good_of_same_writer rfl
+          · exact inclFinish_good _ _
       | exit => rw [writeNode]; exact good_of_same_writer rfl
       | jsonQ => rw [writeNode]; exact good_ctx_only
       | endJsonQ => rw [writeNode]; exact good_ctx_only
